@@ -146,16 +146,16 @@ theorem overwrite_only_on_request (env : Env) (d : Disk) (m : Meta) (mode : Stri
     in any state — complete, interrupted, unreadable — they raise and leave it as it was; only
     the caller's `overwrite=True` yields `mode='overwrite'`. -/
 theorem entry_points_no_clobber :
-    (∀ other, flags.ptTempoMode false other = "write") ∧
-    (∀ other, flags.ptTempoMode true other = "overwrite") ∧
+    (∀ other : Nat → Bool, flags.ptTempoMode false other = "write") ∧
+    (∀ other : Nat → Bool, flags.ptTempoMode true other = "overwrite") ∧
     flags.exportMode false = "write" ∧ flags.exportMode true = "overwrite" ∧
-    (∀ (env : Env) (d : Disk) (m : Meta) (other : Bool), d ≠ .missing →
+    (∀ (env : Env) (d : Disk) (m : Meta) (other : Nat → Bool), d ≠ .missing →
       createFile flags env d (flags.ptTempoMode false other) m = .error .osError ∧
       diskAfterCtor flags env d (flags.ptTempoMode false other) m = d) ∧
     (∀ (env : Env) (d : Disk) (pt : SimplePT), d ≠ .missing →
       exportW flags env d pt false = .error .osError) := by
-  have h1 : ∀ other, flags.ptTempoMode false other = "write" := by decide
-  refine ⟨h1, by decide, rfl, rfl, ?_, ?_⟩
+  have h1 : ∀ other : Nat → Bool, flags.ptTempoMode false other = "write" := fun _ => rfl
+  refine ⟨h1, fun _ => rfl, rfl, rfl, ?_, ?_⟩
   · intro env d m other hd
     rw [h1 other]
     exact no_clobber env d m hd
@@ -163,6 +163,19 @@ theorem entry_points_no_clobber :
     rw [exportW_eq_writerW flags rfl]
     unfold writerW
     rw [show flags.exportMode false = "write" from rfl, (no_clobber env d pt.info hd).1]
+
+/-- … consequently an object obtained from PT-TEMPO with a *named* file and without
+    `overwrite` is never entitled to delete that file (whether or not the file existed
+    before, whatever else the mode selection looks at); with `overwrite`, or for a temporary
+    file it created itself, it is. -/
+theorem pttempo_remove_entitlement :
+    (∀ other : Nat → Bool, removeableOf flags (flags.ptTempoMode false other) true = some false) ∧
+    (∀ other : Nat → Bool, removeableOf flags (flags.ptTempoMode true other) true = some true) ∧
+    (∀ (ovw : Bool) (other : Nat → Bool),
+      removeableOf flags (flags.ptTempoMode ovw other) false = some true) := by
+  refine ⟨fun _ => rfl, fun _ => rfl, ?_⟩
+  intro ovw other
+  cases ovw <;> rfl
 
 /-- **remove()** deletes exactly when the object is entitled: `remove()` on a
     non-removeable object deletes nothing and raises, on a removeable one it deletes; and
